@@ -49,7 +49,8 @@ pub fn run_jobs(rep: &mut Report, jobs: Vec<Job>) -> Totals {
                     let job = &jobs[i];
                     let out_file = dir.join(format!("job-{i}.json"));
                     let _ = std::fs::remove_file(&out_file);
-                    let output = Command::new(&exe)
+                    let (so, se) = (dir.join(format!("job-{i}.out")), dir.join(format!("job-{i}.err")));
+                    let mut child = Command::new(&exe)
                         .arg("run")
                         .arg(job.harness)
                         .arg(job.cfg.to_string())
@@ -57,13 +58,28 @@ pub fn run_jobs(rep: &mut Report, jobs: Vec<Job>) -> Totals {
                         .env_remove("LOOM_LOG")
                         .env_remove("LOOM_CHECKPOINT_FILE")
                         .stdin(Stdio::null())
-                        .stdout(Stdio::piped())
-                        .stderr(Stdio::piped())
-                        .output()
+                        .stdout(std::fs::File::create(&so).expect("job stdout file"))
+                        .stderr(std::fs::File::create(&se).expect("job stderr file"))
+                        .spawn()
                         .expect("spawn child");
-                    let code = output.status.code().unwrap_or(-1);
-                    let stdout = String::from_utf8_lossy(&output.stdout).to_string();
-                    let stderr = String::from_utf8_lossy(&output.stderr).to_string();
+                    // a model stops itself at its wall cap between two executions; a child that is
+                    // still there long after that is stuck inside one execution (a harness bug,
+                    // e.g. an OS-level deadlock the scheduler cannot see): a machinery failure
+                    let cap = job.cfg["max_secs"].as_u64().unwrap_or(600);
+                    let deadline = std::time::Instant::now() + std::time::Duration::from_secs(cap + 180);
+                    let code = loop {
+                        match child.try_wait().expect("wait for child") {
+                            Some(st) => break st.code().unwrap_or(-1),
+                            None if std::time::Instant::now() > deadline => {
+                                let _ = child.kill();
+                                let _ = child.wait();
+                                break -9;
+                            }
+                            None => std::thread::sleep(std::time::Duration::from_millis(20)),
+                        }
+                    };
+                    let stdout = std::fs::read_to_string(&so).unwrap_or_default();
+                    let stderr = std::fs::read_to_string(&se).unwrap_or_default();
                     let record = std::fs::read(&out_file)
                         .ok()
                         .and_then(|b| serde_json::from_slice::<Value>(&b).ok());
